@@ -40,27 +40,20 @@ func c09Case(t *rapid.T, test string, many bool) {
 		}
 		h := newHistory(t, wo, prof, sim.BlockOpts{MaxTxs: 5, Absences: true, Evidence: true, EvidenceAny: !many, TimeJumps: true})
 		h.N.Name = "restarted"
+		if sim.U(t, "coldGenerator", 3) == 0 {
+			// the generator reads nonces, balances, owners and pools from a separate state object: after
+			// a restart the first access to every cache entry is then block execution's own
+			h.G.ColdReads, h.G.Detached = true, true
+			sim.S.Label("C09/cold-generator")
+		}
 		declared := 0
 		if many {
 			h.R.H.AfterBegin = func(sim.BlockReq) {
-				if sim.U(t, "craftDeclare", 2) != 0 {
-					return
-				}
-				for i := 1 + sim.U(t, "nDeclare", 3); i > 0; i-- {
-					u := sim.GetUser(sim.U(t, "declUser", h.W.NUsers))
-					stake := sim.Bip(int64(rapid.SampledFrom([]int{1, 50, 999, 1000, 1001, 5000, 400000}).Draw(t, "declStake")))
-					if h.G.Balance(u.Addr, 0).Cmp(new(big.Int).Add(stake, sim.Bip(20000))) < 0 {
-						continue
+				if !craftDeclarations(t, h, &declared) {
+					if h.R.Divergence != "" {
+						violation(t, "restart-divergence-response", h.R, "%s", h.R.Divergence)
 					}
-					declared++
-					data := tx.DeclareCandidacyData{Address: u.Addr, PubKey: sim.ValKey(3000 + declared), Commission: uint32(sim.U(t, "declComm", 101)), Coin: 0, Stake: stake}
-					raw := sim.SignedTx(h.W, u, h.G.Nonce(u.Addr)+1, tx.TypeDeclareCandidacy, data, 0)
-					if !h.R.Deliver(&sim.TxMeta{Raw: raw, Kind: "declare-crafted", Type: tx.TypeDeclareCandidacy, Sender: u.Addr, Payer: u.Addr, Data: data, GasPrice: 1}) {
-						if h.R.Divergence != "" {
-							violation(t, "restart-divergence-response", h.R, "%s", h.R.Divergence)
-						}
-						violation(t, "panic", h.R, "%s", h.R.PanicReport())
-					}
+					violation(t, "panic", h.R, "%s", h.R.PanicReport())
 				}
 			}
 		}
@@ -119,4 +112,28 @@ func c09Case(t *rapid.T, test string, many bool) {
 		}
 		sim.S.Case(test, restarts > 0 && acceptedAfter > 0 && (!many || declared > 0), sim.HashStrings(h.R.Steps), func() interface{} { return sim.HistorySample(h.R.Steps, 30) })
 	}
+}
+
+// craftDeclarations delivers, in half of the blocks, one to three declarations of new candidates with
+// stakes around the interesting sizes (many-candidate worlds: they push the count over 100, so that
+// candidates are removed at the next recalculation). Returns false if a delivery panicked or a mirror
+// diverged.
+func craftDeclarations(t *rapid.T, h *history, declared *int) bool {
+	if sim.U(t, "craftDeclare", 2) != 0 {
+		return true
+	}
+	for i := 1 + sim.U(t, "nDeclare", 3); i > 0; i-- {
+		u := sim.GetUser(sim.U(t, "declUser", h.W.NUsers))
+		stake := sim.Bip(int64(rapid.SampledFrom([]int{1, 50, 999, 1000, 1001, 5000, 400000}).Draw(t, "declStake")))
+		if h.G.Balance(u.Addr, 0).Cmp(new(big.Int).Add(stake, sim.Bip(20000))) < 0 {
+			continue
+		}
+		*declared++
+		data := tx.DeclareCandidacyData{Address: u.Addr, PubKey: sim.ValKey(3000 + *declared), Commission: uint32(sim.U(t, "declComm", 101)), Coin: 0, Stake: stake}
+		raw := sim.SignedTx(h.W, u, h.G.Nonce(u.Addr)+1, tx.TypeDeclareCandidacy, data, 0)
+		if !h.R.Deliver(&sim.TxMeta{Raw: raw, Kind: "declare-crafted", Type: tx.TypeDeclareCandidacy, Sender: u.Addr, Payer: u.Addr, Data: data, GasPrice: 1}) {
+			return false
+		}
+	}
+	return true
 }
